@@ -245,8 +245,14 @@ type Unit struct {
 // specified by the inputs. The built-in dimensions are always in SI units
 // (metres, kilograms, etc.).
 func New(value float64, d Dimensions) *Unit {
+	dims := d.clone()
+	if dims == nil {
+		// A nil Dimensions is dimensionless; Mul and Div
+		// need a map they can assign to.
+		dims = make(Dimensions)
+	}
 	return &Unit{
-		dimensions: d.clone(),
+		dimensions: dims,
 		value:      value,
 	}
 }
